@@ -18,6 +18,13 @@ def _eval_class(path: str, clsname: str, prelude: str = ""):
     module is executed); when the class body refers to module-level helpers (a table built by a function, constants
     shared between classes) the whole module is executed in a scratch namespace instead - it is a pure data module
     (dataclasses, enums, literals), it is not imported as part of the package and nothing of bigtree gets loaded."""
+    # the tables are what a user of the module sees AFTER the module has run (a table may be completed by module-level
+    # code below the class statement): execute the data module in a scratch namespace first; the class statement alone
+    # is the fall-back when the module cannot be executed in isolation
+    try:
+        return getattr(_exec_module(path), clsname)
+    except Exception:  # noqa: BLE001
+        pass
     src = open(path, encoding="utf-8").read()
     tree = ast.parse(src)
     for node in tree.body:
